@@ -104,7 +104,7 @@ func GenCMapFile(t *sim.Tape, ncmaps int) []byte {
 		sb.WriteString("%!PS-Adobe-3.0 Resource-CMap\n%%DocumentNeededResources: ProcSet (CIDInit)\n%%IncludeResource: ProcSet (CIDInit)\n%%BeginResource: CMap (Test)\n%%Title: (Test Adobe Identity 0)\n%%Version: 1\n%%EndComments\n")
 	}
 	sb.WriteString("/CIDInit /ProcSet findresource begin\n")
-	names := []string{"Test-H", "Alpha", "beta", "Zeta-V", "M0", "aaa"}
+	names := []string{"Test-H", "Alpha", "beta", "Zeta-V", "M0", "aaa", "", "A", "a", "B-", "0", "Alph", "~", "-"}
 	used := map[string]bool{}
 	for i := 0; i < ncmaps; i++ {
 		name := sim.Pick(t, names)
@@ -173,7 +173,16 @@ func GenMetrics(t *sim.Tape, maxGlyphs int) *afm.Metrics {
 			k := 1 + t.Small(5)
 			g.Ligatures = map[string]string{}
 			for j := 0; j < k; j++ {
-				g.Ligatures[sim.Pick(t, names)] = sim.Pick(t, names)
+				succ, lig := sim.Pick(t, names), sim.Pick(t, names)
+				// metrics of subset fonts name successors / ligatures that are
+				// not glyphs of this font
+				if t.Bool(1, 3) {
+					succ = []string{"ff", "ffl", "zz", "Q", "q.alt"}[t.Choose(5)]
+				}
+				if t.Bool(1, 4) {
+					lig = []string{"f_f", "X_Y", "lig1"}[t.Choose(3)]
+				}
+				g.Ligatures[succ] = lig
 			}
 		}
 	}
